@@ -47,6 +47,11 @@ pub fn password_needles(secret: &str) -> Vec<(String, String)> {
     let mut v = vec![("clear text".to_string(), secret.to_string())];
     let dbg = format!("{secret:?}");
     v.push(("Debug-escaped text".into(), dbg[1..dbg.len() - 1].to_string()));
+    // a secret with surrounding blanks / a trailing newline may be logged after trimming
+    let trimmed = secret.trim();
+    if trimmed != secret && trimmed.len() >= 6 {
+        v.push(("clear text (trimmed)".into(), trimmed.to_string()));
+    }
     for (upper, name) in [(false, "hex"), (true, "HEX")] {
         for sep in ["", " ", ":", ", "] {
             v.push((format!("{name} (separator {sep:?})"), hex(b, upper, sep)));
@@ -214,9 +219,9 @@ pub fn run(report: &mut Report) {
     let servers = Servers::start("C20");
     let levels: Vec<&'static str> = if thorough { vec!["ERROR", "WARN", "INFO", "DEBUG", "TRACE"] } else { vec!["INFO", "DEBUG", "TRACE"] };
     let passwords: Vec<String> = if thorough {
-        vec![SSH_PASSWORD.into(), "s3cr3t".into(), "it's \"quoted\"".into(), "back\\slash and\ttab".into(), "p\u{e4}ssw\u{f6}rd-\u{1f511}".into(), "Zm9vYmFyYmF6cXV4MTIzNDU2Nzg5MA==".into()]
+        vec![SSH_PASSWORD.into(), "s3cr3t".into(), "it's \"quoted\"".into(), "back\\slash and\ttab".into(), "p\u{e4}ssw\u{f6}rd-\u{1f511}".into(), "Zm9vYmFyYmF6cXV4MTIzNDU2Nzg5MA==".into(), " padded s3cret ".into(), "from-a-file-w1th-newline\n".into()]
     } else {
-        vec![SSH_PASSWORD.into(), "it's \"quoted\"".into(), "p\u{e4}ssw\u{f6}rd-\u{1f511}".into()]
+        vec![SSH_PASSWORD.into(), "it's \"quoted\"".into(), "p\u{e4}ssw\u{f6}rd-\u{1f511}".into(), " from-a-file-w1th-newline\n".into()]
     };
     let mut cfgs: Vec<Cfg> = Vec::new();
     for level in &levels {
@@ -349,9 +354,27 @@ pub fn run(report: &mut Report) {
     for (name, parts) in [("cert-then-key.pem", vec!["client.crt", "client.key"]), ("key-then-cert.pem", vec!["client.key", "client.crt"]), ("two-keys.pem", vec!["client.key", "client-ec.key"]), ("chain.pem", vec!["client.crt", "ca.crt"])] {
         _ = std::fs::write(bundle_dir.join(name), parts.iter().map(|p| rd(p)).collect::<String>());
     }
+    // key files whose formatting was damaged on the way (templating tools, copy and paste, other platforms)
+    let key_text = rd("client.key");
+    let damaged: Vec<(&str, String)> = vec![
+        ("flattened.key", format!("{}\n", key_text.trim_end().replace('\n', " "))),
+        ("flattened-no-newline.key", key_text.trim_end().replace('\n', " ")),
+        ("crlf.key", key_text.replace('\n', "\r\n")),
+        ("indented.key", key_text.lines().map(|l| format!("    {l}\n")).collect()),
+        ("no-end.key", key_text.lines().filter(|l| !l.starts_with("-----END")).map(|l| format!("{l}\n")).collect()),
+        ("header-typo.key", key_text.replacen("-----BEGIN ", "----BEGIN ", 1)),
+        ("end-typo.key", key_text.replacen("-----END ", "-----END  ", 1)),
+        ("no-header.key", key_text.lines().filter(|l| !l.starts_with("-----")).map(|l| format!("{l}\n")).collect()),
+        ("one-bad-char.key", { let mut t = key_text.clone().into_bytes(); let i = t.len() / 2; t[i] = b'!'; String::from_utf8_lossy(&t).into_owned() }),
+        ("escaped-newlines.key", key_text.trim_end().replace('\n', "\\n")),
+        ("bom.key", format!("\u{feff}{key_text}")),
+    ];
+    for (name, text) in &damaged {
+        _ = std::fs::write(bundle_dir.join(name), text);
+    }
     let bundle = |n: &str| bundle_dir.join(n).display().to_string();
     let pk = |n: &str| peers::pki(n).display().to_string();
-    let agent_cases: Vec<(String, String, &str, bool)> = vec![
+    let mut agent_cases: Vec<(String, String, &str, bool)> = vec![
         (pk("client.crt"), pk("client.key"), "success", true),
         (pk("client-ec.crt"), pk("client-ec.key"), "ec key", true),
         (pk("client.key"), pk("client.key"), "key file at the certificate path", false),
@@ -361,6 +384,14 @@ pub fn run(report: &mut Report) {
         (pk("client.crt"), bundle("two-keys.pem"), "two keys in the key file", true),
         (bundle("chain.pem"), bundle("key-then-cert.pem"), "chain file and key-first bundle", true),
     ];
+    for (name, _) in &damaged {
+        let what: &'static str = Box::leak(format!("damaged key file {name}").into_boxed_str());
+        agent_cases.push((pk("client.crt"), bundle(name), what, true));
+        if thorough {
+            let what: &'static str = Box::leak(format!("damaged key file {name} at the certificate path").into_boxed_str());
+            agent_cases.push((bundle(name), pk("client.key"), what, true));
+        }
+    }
     for (verbosity, rust_log) in [("-vvv", None), ("-vv", Some("trace")), ("-v", Some("rustls=trace,tokio_rustls=trace,bgpfu_junos_agent=trace,netconf=trace")), ("-q", None)] {
         for (cert_path, key_path, what, connects) in &agent_cases {
             let (what, connects) = (*what, *connects);
@@ -368,13 +399,21 @@ pub fn run(report: &mut Report) {
             let args: Vec<String> = vec!["--frequency".into(), "0".into(), "--irrd-host".into(), "127.0.0.1".into(), "--irrd-port".into(), dead_port.to_string(), verbosity.into(), "remote".into(), "--netconf-host".into(), "127.0.0.1".into(), "--netconf-port".into(), servers.tls.port.to_string(), "--ca-cert-path".into(), peers::pki("ca.crt").display().to_string(), "--client-cert-path".into(), cert_path.clone(), "--client-key-path".into(), key_path.clone(), "--tls-server-name".into(), "localhost".into()];
             let env: Vec<(String, String)> = rust_log.map(|r| vec![("RUST_LOG".to_string(), r.to_string())]).unwrap_or_default();
             servers.tls.drain();
-            let child = run_child(&json!({}), Some((args, env)));
+            let mut child = run_child(&json!({}), Some((args, env)));
             if connects {
-                if let Some(mut p) = servers.tls.accept(Duration::from_secs(3)) {
-                    _ = p.send_chunk(hello_msg(&[CAP_BASE_1_0, "urn:ietf:params:netconf:capability:candidate:1.0", CAP_JUNOS], "9").as_bytes());
-                    _ = p.read_message(Duration::from_secs(2));
-                    _ = p.read_message(Duration::from_secs(2));
-                    p.close(CloseKind::Clean);
+                // serve one connection, but stop waiting as soon as the agent has exited without connecting
+                let waiting = std::time::Instant::now();
+                while waiting.elapsed() < Duration::from_secs(3) {
+                    if let Some(mut p) = servers.tls.accept(Duration::from_millis(40)) {
+                        _ = p.send_chunk(hello_msg(&[CAP_BASE_1_0, "urn:ietf:params:netconf:capability:candidate:1.0", CAP_JUNOS], "9").as_bytes());
+                        _ = p.read_message(Duration::from_secs(2));
+                        _ = p.read_message(Duration::from_secs(2));
+                        p.close(CloseKind::Clean);
+                        break;
+                    }
+                    if matches!(child.try_wait(), Ok(Some(_))) {
+                        break;
+                    }
                 }
             }
             let output = collect(child, Duration::from_secs(12));
